@@ -65,6 +65,25 @@ def release_sites(ctx):
     for s_ in out:
         if s_["kind"] in ("UNGUARDED", "OTHER") or s_.get("params"):
             lifted.extend(lift_release_sites(ctx, s_))
+    # a `countdown == 0` release inside a helper that is also called, unconditionally, while the run is being set up
+    # (before anything was counted off) is at that call the empty-graph release
+    for s_ in out:
+        if s_["kind"] != "FINISHED":
+            continue
+        hb = s_["body"]
+        fnid = hb.id
+        if hb.kind == "coroutine" and hb.parent and hb.coroutine_kind and "Fn" in hb.coroutine_kind:
+            fnid = hb.parent
+        elif hb.kind != "fn":
+            continue
+        for (cb, cbb, ct) in fl.call_sites().get(fnid, []):
+            if fb.is_test_body(cb) or not is_pre_scheduler_body(cb) or cb.back_edges():
+                continue
+            k2, d2, p2 = classify_release_guard(ctx, cb, cbb, with_params=True)
+            if k2 == "UNGUARDED":
+                lifted.append({"body": cb, "bb": cbb, "t": ct, "roles": s_["roles"], "kind": "EMPTY",
+                               "detail": "%s == 0 tested by %s during set-up (nothing counted off yet)" % (s_["detail"], short(fnid)),
+                               "params": [], "via": s_})
     out.extend(lifted)
     m._release_sites = out
     return out
@@ -97,6 +116,12 @@ def classify_value_as_guard(ctx, b, e, taken_true):
     e = strip_refs(e)
     if e.kind == "unop" and e[1] == "Not":
         return classify_value_as_guard(ctx, b, e[2], not taken_true)
+    if e.kind == "binop" and e[1] in ("Lt", "Ge") and is_const(e[3], 1):
+        # unsigned `x < 1` <=> `x == 0`, `x >= 1` <=> `x != 0`
+        e = E(("binop", "Eq" if e[1] == "Lt" else "Ne", e[2], E(("const", "0", "usize"))))
+    elif e.kind == "binop" and e[1] in ("Gt", "Le") and is_const(e[2], 1):
+        # `1 > x` <=> `x == 0`, `1 <= x` <=> `x != 0`
+        e = E(("binop", "Eq" if e[1] == "Gt" else "Ne", e[3], E(("const", "0", "usize"))))
     if e.kind == "binop" and e[1] in ("Eq", "Ne", "Le", "Gt"):
         x = None
         if is_const(e[3], 0):
@@ -902,8 +927,12 @@ def U1(ctx, rule="U1"):
                       "stream: %s sender is not released when %s" % (role, "the graph is empty" if k == "EMPTY" else "the countdown of yielded functions reaches 0"))
     # the countdown is decremented exactly on Ready(Some) of the READY poll, by 1
     pcs = [cb for cb, how in poll_closures(ctx) if cb.id in reach]
+    helpers_of = {cb.id: (m.reach_calls(cb.id) - {cb.id}) for cb in pcs}
     for cb in pcs:
-        has_ready = any(callee_path(t) in RECV_FNS and "READY" in m.receiver_role(cb, t["args"][0])[0] for bb, t in cb.calls())
+        if any(cb.id in hs for hs in helpers_of.values()):
+            continue        # a helper called from the stream's poll function: covered through its caller
+        grp = [fb.bodies[i] for i in sorted(m.reach_calls(cb.id))]
+        has_ready = any(callee_path(t) in RECV_FNS and "READY" in m.receiver_role(gb, t["args"][0])[0] for gb in grp for bb, t in gb.calls())
         if not has_ready:
             continue
         key = short(cb.id)
@@ -949,16 +978,20 @@ def U1(ctx, rule="U1"):
                       "the decrement happens exactly when the poll result is Ready(Some(..)) (a function is yielded)",
                       "the countdown decrement is not guarded by `Ready(Some(..))` of the yielded item")
         # with the done-sender gone the poll returns Ready(None) without touching READY
-        rp = [(bb, t) for bb, t in cb.calls() if callee_path(t) in RECV_FNS and "READY" in m.receiver_role(cb, t["args"][0])[0]]
+        rp = [(gb, bb, t) for gb in grp for bb, t in gb.calls() if callee_path(t) in RECV_FNS and "READY" in m.receiver_role(gb, t["args"][0])[0]]
         g2 = False
-        for bb, t in rp:
-            for sb, vals in guards_of(cb, bb):
-                de = switch_expr(cb, sb)
-                if de.kind == "discr":
-                    srcs = sources_of_expr(ctx, cb, strip_refs(de[1]))
-                    roles = holder_roles(ctx, cb, strip_refs(de[1]))
-                    if "DONE" in roles and vals == frozenset(["1"]):
-                        g2 = True
+        for gb, bb, t in rp:
+            sites_ = [(gb, bb)]
+            if gb.id != cb.id:
+                # also the guards of the helper's call in the poll function
+                sites_ += [(cb, cbb) for cbb, ct in cb.calls() if callee_path(ct) == gb.id]
+            for xb, xbb in sites_:
+                for sb, vals in guards_of(xb, xbb):
+                    de = switch_expr(xb, sb)
+                    if de.kind == "discr":
+                        roles = holder_roles(ctx, xb, strip_refs(de[1]))
+                        if "DONE" in roles and vals == frozenset(["1"]):
+                            g2 = True
         ctx.check(g2, rule, "end-guard|%s" % key, m.where(cb),
                   "READY is polled only while the done-sender is still held; afterwards the stream ends with Ready(None)",
                   "the poll of READY is not guarded by the done-sender being present: the stream cannot end (READY's sender is also held by the closure)")
